@@ -95,6 +95,8 @@ func argInt(v interface{}) (int, bool, bool) {
 			return 0, true, true
 		}
 		return *x, false, true
+	case string:
+		return internStr(x), false, true // text compares by interned code (relational model)
 	}
 	return 0, false, false
 }
